@@ -115,9 +115,22 @@ func (e *kvElection) checkKeyAndReelect(ctx context.Context) {
 				zap.String("new_leader_id", newLeaderID),
 			)...,
 		)
-		e.leaderID.Store(newLeaderID)
-		e.revision.Store(entry.Revision())
+		e.observeLeader(newLeaderID, entry.Revision())
 	}
+}
+
+// observeLeader records the leader a follower sees in the record. It does nothing once this
+// instance leads: the read may have been in flight while it was promoted, and a leader's
+// revision and leader id are those of its own record.
+func (e *kvElection) observeLeader(leaderID string, rev uint64) {
+	e.mu.Lock()
+	defer e.mu.Unlock()
+
+	if e.isLeader.Load() {
+		return
+	}
+	e.leaderID.Store(leaderID)
+	e.revision.Store(rev)
 }
 
 // handleWatchEvent processes watch events and triggers re-election when the key is deleted
@@ -182,12 +195,10 @@ func (e *kvElection) handleWatchEvent(entry Entry) {
 				zap.Uint64("revision", entry.Revision()),
 			)...,
 		)
-		e.leaderID.Store(newLeaderID)
-		e.revision.Store(entry.Revision())
+		e.observeLeader(newLeaderID, entry.Revision())
 		return
 	}
-	e.leaderID.Store(newLeaderID)
-	e.revision.Store(entry.Revision())
+	e.observeLeader(newLeaderID, entry.Revision())
 
 	// Check if we should attempt priority takeover
 	if e.cfg.AllowPriorityTakeover && e.cfg.Priority > payload.Priority {
